@@ -287,18 +287,34 @@ type lockFlow struct {
 	// deferred unlocks registered (may), by key
 	deferredUnlock map[string]bool
 	exitMay        map[*ssa.Return]heldSet
+	// the deferred unlocks registered on EVERY path to the return (flow-sensitive counterpart of deferredUnlock)
+	exitDeferred map[*ssa.Return]map[string]bool
+	exitBal      map[*ssa.Return]heldSet
 }
 
 func computeLockFlow(fn *ssa.Function, entry heldSet) *lockFlow {
-	lf := &lockFlow{must: map[ssa.Instruction]heldSet{}, may: map[ssa.Instruction]heldSet{}, deferredUnlock: map[string]bool{}, exitMay: map[*ssa.Return]heldSet{}}
+	lf := &lockFlow{must: map[ssa.Instruction]heldSet{}, may: map[ssa.Instruction]heldSet{}, deferredUnlock: map[string]bool{}, exitMay: map[*ssa.Return]heldSet{}, exitDeferred: map[*ssa.Return]map[string]bool{}, exitBal: map[*ssa.Return]heldSet{}}
 	if len(fn.Blocks) == 0 {
 		return lf
 	}
-	type st struct{ must, may heldSet }
+	type st struct {
+		must, may heldSet
+		bal       heldSet         // may-held, with a deferred unlock counted as the release (balance only)
+		def       map[string]bool // deferred unlocks registered on every path so far
+	}
+	cloneDef := func(m map[string]bool) map[string]bool {
+		o := map[string]bool{}
+		for k := range m {
+			o[k] = true
+		}
+		return o
+	}
 	in := map[*ssa.BasicBlock]*st{}
-	in[fn.Blocks[0]] = &st{entry.clone(), entry.clone()}
+	in[fn.Blocks[0]] = &st{entry.clone(), entry.clone(), entry.clone(), map[string]bool{}}
 	transfer := func(b *ssa.BasicBlock, s st, record bool) st {
 		must, may := s.must.clone(), s.may.clone()
+		def := cloneDef(s.def)
+		bal := s.bal.clone()
 		for _, ins := range b.Instrs {
 			if record {
 				lf.must[ins] = must.clone()
@@ -312,20 +328,33 @@ func computeLockFlow(fn *ssa.Function, entry heldSet) *lockFlow {
 						hl := heldLock{op.mode, mutexClass(x.Call.Args[0])}
 						must[k] = hl
 						may[k] = hl
+						bal[k] = hl
 					} else {
 						delete(must, k)
 						delete(may, k)
+						delete(bal, k)
 					}
 				}
 			case *ssa.Defer:
 				if op, ok := mutexOps[calleeKey(x)]; ok && !op.acquire && len(x.Call.Args) > 0 {
 					lf.deferredUnlock[pathOf(x.Call.Args[0])] = true
+					def[pathOf(x.Call.Args[0])] = true
+					delete(bal, pathOf(x.Call.Args[0]))
 				} else if f := x.Call.StaticCallee(); f != nil && f.Blocks != nil && len(f.Blocks) <= 3 {
 					// defer func() { mu.Unlock() }()
+					acquiredFirst := map[string]bool{}
 					allInstrsIn(f, func(i2 ssa.Instruction) {
 						if c2, ok := i2.(*ssa.Call); ok {
-							if op, ok := mutexOps[calleeKey(c2)]; ok && !op.acquire && len(c2.Call.Args) > 0 {
-								lf.deferredUnlock[pathOf(c2.Call.Args[0])] = true
+							if op, ok := mutexOps[calleeKey(c2)]; ok && len(c2.Call.Args) > 0 {
+								k2 := pathOf(c2.Call.Args[0])
+								if op.acquire {
+									// (a deferred function that takes the lock itself does not release the caller's)
+									acquiredFirst[k2] = true
+								} else if !acquiredFirst[k2] {
+									lf.deferredUnlock[k2] = true
+									def[k2] = true
+									delete(bal, k2)
+								}
 							}
 						}
 					})
@@ -333,10 +362,12 @@ func computeLockFlow(fn *ssa.Function, entry heldSet) *lockFlow {
 			case *ssa.Return:
 				if record {
 					lf.exitMay[x] = may.clone()
+					lf.exitDeferred[x] = cloneDef(def)
+					lf.exitBal[x] = bal.clone()
 				}
 			}
 		}
-		return st{must, may}
+		return st{must, may, bal, def}
 	}
 	// fixpoint
 	work := []*ssa.BasicBlock{fn.Blocks[0]}
@@ -347,13 +378,20 @@ func computeLockFlow(fn *ssa.Function, entry heldSet) *lockFlow {
 		for _, s := range b.Succs {
 			cur := in[s]
 			if cur == nil {
-				in[s] = &st{out.must.clone(), out.may.clone()}
+				in[s] = &st{out.must.clone(), out.may.clone(), out.bal.clone(), cloneDef(out.def)}
 				work = append(work, s)
 				continue
 			}
 			nm, ny := meet(cur.must, out.must), union(cur.may, out.may)
-			if !sameHeld(nm, cur.must) || !sameHeld(ny, cur.may) {
-				cur.must, cur.may = nm, ny
+			nb := union(cur.bal, out.bal)
+			nd := map[string]bool{}
+			for k := range cur.def {
+				if out.def[k] {
+					nd[k] = true
+				}
+			}
+			if !sameHeld(nm, cur.must) || !sameHeld(ny, cur.may) || !sameHeld(nb, cur.bal) || len(nd) != len(cur.def) {
+				cur.must, cur.may, cur.bal, cur.def = nm, ny, nb, nd
 				work = append(work, s)
 			}
 		}
